@@ -80,13 +80,17 @@ def glob_match(pattern, rel):
 
 def _pick_dirspec(rng, allow_path=True, force=None):
     """-> None | ['str', 'd'] | ['path', root, 'd']"""
-    how = force or rng.choice(['none', 'none', 'str', 'str', 'path'])
-    if how == 'path' and not allow_path:
+    how = force or rng.choice(['none', 'none', 'str', 'str', 'path', 'abs'])
+    if how in ('path', 'abs') and not allow_path:
         how = 'str'
     if how == 'none':
         return None
     if how == 'str':
         return ['str', rng.choice(DIR_STRINGS)]
+    if how == 'abs':
+        # an absolute directory given as a plain string (below the scratch root, which the
+        # script learns from the environment): staged below DESTDIR like everything else
+        return ['abs', 'absroot', rng.choice(['opt dir', 'abs/x', 'srv'])]
     return ['path', rng.choice(['prefix', 'exec_prefix', 'datadir', 'libdir',
                                 'includedir', 'bindir', 'mandir']),
             rng.choice(DIR_STRINGS + ['pkg'])]
@@ -128,6 +132,8 @@ def resolve_dirs(cfg):
     d['includedir'] = cfg.get('includedir', d['prefix'] + '/include')
     d['datadir'] = cfg.get('datadir', d['prefix'] + '/share')
     d['mandir'] = cfg.get('mandir', d['datadir'] + '/man')
+    # (the prefix is always <scratch root>/root/<word>)
+    d['absroot'] = cfg['prefix'][:cfg['prefix'].rindex('/root/')] + '/root/abs'
     return d
 
 
@@ -571,6 +577,8 @@ def render(P):
             return ''
         if ds[0] == 'str':
             return ', directory=%r' % ds[1]
+        if ds[0] == 'abs':
+            return ", directory=env.getvar('VF_ABSROOT') + %r" % ('/' + ds[2])
         return ', directory=Path(%r, InstallRoot.%s)' % (ds[2], ds[1])
 
     pc_line = None
